@@ -96,12 +96,6 @@ func (cache *MemoryCache[K, V]) Set(key K, value V, ttlSec float64) error {
 		// The choice to put the check outside of the lock is intentional,
 		// we are 'saving' value allocation and lock by checking the size first
 		itemSize = cache.calculateSizeFunc(key, value)
-		if cache.currentCacheSize+itemSize > cache.maxCacheSize {
-			return fmt.Errorf(
-				"Cannot add item: max cache size would be exceeded."+
-					" Current cache size is %v",
-				cache.currentCacheSize)
-		}
 	}
 
 	ttlDuration := time.Duration(float64(time.Second) * ttlSec)
@@ -109,10 +103,18 @@ func (cache *MemoryCache[K, V]) Set(key K, value V, ttlSec float64) error {
 		ttlDuration.Nanoseconds()
 
 	cache.mutex.Lock()
-	cache.cache[key] = ValueWrapper[V]{value, expirationTimeNano}
 	if cache.calculateCacheSize {
+		if cache.currentCacheSize+itemSize > cache.maxCacheSize {
+			currentCacheSize := cache.currentCacheSize
+			cache.mutex.Unlock()
+			return fmt.Errorf(
+				"Cannot add item: max cache size would be exceeded."+
+					" Current cache size is %v",
+				currentCacheSize)
+		}
 		cache.currentCacheSize += itemSize
 	}
+	cache.cache[key] = ValueWrapper[V]{value, expirationTimeNano}
 	cache.mutex.Unlock()
 
 	go func() {
